@@ -4,3 +4,4 @@ pub use grin_wallet_libwallet as libwallet;
 pub mod node;
 pub mod world;
 pub mod driver;
+pub mod crash;
